@@ -94,7 +94,7 @@ pub fn run(tier: Tier) -> i32 {
     let mut rep = Report::new(
         "C17",
         tier,
-        "all kind sequences of length 1..=5 (8+64+512+4096+32768) enumerated, plus random sequences of length 6..=14 with repetitions; \
+        "all kind sequences of length 1..=5 (8+64+512+4096+32768) enumerated, plus random sequences of length 6..=14 with repetitions and long sequences (15..300 entries, sizes around typical buffer thresholds) in which a kind first occurs near the end; \
          oracle: phrase(seq) == phrase(sorted distinct set) and == join(expected items) with singleton names taken from the function's own \
          outputs; non-trivial = the set has >= 2 kinds of which >= 1 numeric; distinct by sequence",
     );
@@ -146,8 +146,20 @@ pub fn run(tier: Tier) -> i32 {
     let n = tier.pick(20_000, 400_000);
     let mut rng = rng_for(rep.seed, "C17", 0, 0);
     for i in 0..n {
-        let len = rng.random_range(6..=14);
-        let seq: Vec<Kind> = (0..len).map(|_| ALL_KINDS[rng.random_range(0..8)]).collect();
+        let seq: Vec<Kind> = if i % 3 == 0 {
+            // long lists in which a kind occurs for the first time late: a long run over one to three kinds,
+            // then everything (lengths around typical buffer sizes and the numbers in deserr's sources)
+            let mut sizes: Vec<usize> = vec![15, 16, 17, 18, 31, 32, 33, 34, 63, 64, 65, 66, 127, 128, 129, 255, 256, 257, 300];
+            sizes.extend(dv_core::genp::dict().ints.iter().filter(|v| **v >= 6 && **v <= 300).flat_map(|v| [*v as usize, *v as usize + 1, *v as usize + 2]));
+            let len = sizes[rng.random_range(0..sizes.len())];
+            let nsub = rng.random_range(1..=3);
+            let sub: Vec<Kind> = (0..nsub).map(|_| ALL_KINDS[rng.random_range(0..8)]).collect();
+            let tail = rng.random_range(1..=4usize).min(len);
+            (0..len).map(|k| if k + tail < len { sub[rng.random_range(0..sub.len())] } else { ALL_KINDS[rng.random_range(0..8)] }).collect()
+        } else {
+            let len = rng.random_range(6..=14);
+            (0..len).map(|_| ALL_KINDS[rng.random_range(0..8)]).collect()
+        };
         rep.stats.evaluations += 1;
         let set: BTreeSet<Kind> = seq.iter().copied().collect();
         if set.len() >= 2 && set.iter().any(numeric) {
